@@ -86,4 +86,20 @@ CHECKS = {
         ref="§4 C18",
         note=_NOTE + " Primality of 256-bit values rests on the accelerator's isProbablePrime(128). Binary-curve and Edwards parameter sets are checked under C16/C17.",
         technique="TLC evaluation of the parameter-set relations (ParamSpec) on getter dumps of every accepted id"),
+    "C20": dict(
+        text="Design level: the ladder and the regular w-NAF multiplication are transcribed as their digit loops over Z_n "
+             "emitting one label per group-level operation; TLC checks that every secret scalar yields the reference label "
+             "sequence (self-composition reduced to a reference run) and still computes k*P, and refutes the non-regular "
+             "double-and-add control. Code level, purely relational: the objects holding dv_copy_sec/dv_swap_sec/dv_cmp_sec/"
+             "util_cmp_sec/fp_copy_sec and the secret-scalar algorithm bodies (ep_mul_monty, ep_mul_lwreg, ep2 forms, "
+             "g1/g2_mul_sec, gt_exp_sec, bn_mxp_monty, fp_exp_monty, regular recodings) are recompiled from the working tree "
+             "with -fsanitize-coverage=trace-pc; per run the driver records the sequence of group-level callees (ld --wrap) and "
+             "the basic-block sequence of the observed functions; trace/CtTrace requires all runs of a class (same algorithm, "
+             "same public parameters, secrets of one bit length: extreme Hamming weights, long runs, n-1, random; every "
+             "condition bit x data class for the primitives) to have the observation of the class's first run. Non-regular "
+             "controls must differ (the observation is not blind).",
+        ref="§4 C20",
+        note=_NOTE + " Decides control flow only - nothing about time, caches or secret-dependent branches inside callees "
+             "not declared constant-time (bn_mod, inversion in ep_norm, bn_rec_frb); compiler output of this build only.",
+        technique="TLC model checking of label schedules (self-composition) + relational TLC trace validation of trace-pc / ld --wrap control-flow observations"),
 }
